@@ -8,7 +8,10 @@ at ordinal anchors.  What is dropped / rewritten (exhaustive):
     (single-file crate; no semantic effect);
   * `-> T` becomes `-> (r: T)` when the overlay names the result;
   * items not listed in the overlay are not copied at all;
-  * anchor `Bk/end;` appends `;` to a unit-typed tail expression so a proof block can follow it.
+  * anchor `Bk/end;` appends `;` to a unit-typed tail expression so a proof block can follow it;
+  * `for_names` inserts a ghost-iterator binder into a for-loop header (`for P in E` => `for P in it: E`),
+    Verus syntax that is erased with the ghost code; overlay `attrs` puts #[verifier::...] attributes
+    on a copied item.
 No expression or statement inside a copied body is rewritten; overlay text is only *inserted*
 (between signature and body, before a `{` of a loop body, or before a statement).
 A missing item or anchor raises LostAnchor (driver: exit 2, undecided), never a violation.
@@ -288,6 +291,13 @@ def splice(fn, item):
         return '#[verifier::external_body]\n' + sig + '\n' + spec + '\n{ unimplemented!() }\n'
     ins = []  # (offset, text)
     m, blks = blocks_of(body)
+    # name the ghost iterator of the k-th `for` loop:  for PAT in EXPR {  =>  for PAT in NAME: EXPR {
+    # (Verus binder syntax for the loop's ghost iterator; erased with the rest of the ghost code)
+    for k, nm in (item.get('for_names') or {}).items():
+        fors = list(re.finditer(r'\bfor\s+[^;{}]+?\s+in\s+', m))
+        if int(k) >= len(fors):
+            raise LostAnchor('fn %s: for-loop %s missing' % (item['name'], k))
+        ins.append((fors[int(k)].end(), nm + ': '))
     for key, text in (item.get('loops') or {}).items():
         bi = int(key.lstrip('B'))
         if bi >= len(blks):
@@ -325,7 +335,7 @@ def splice(fn, item):
     ins.sort(key=lambda t: -t[0])
     for off, text in ins:
         body = body[:off] + text + body[off:]
-    return sig + '\n' + spec + '\n' + body + '\n'
+    return item.get('attrs', '') + sig + '\n' + spec + '\n' + body + '\n'
 
 def strip_vis_struct(text):
     text = re.sub(r'(?m)^\s*(///|//!).*\n', '', text)
@@ -340,7 +350,7 @@ def build_unit(repo, overlay):
         if rel not in srcs:
             srcs[rel] = Source(repo + '/' + rel)
         return srcs[rel]
-    out = ['// GENERATED by /verif/verus/extract.py from /repo — do not edit\n',
+    out = ['// GENERATED by /verif/verus/extract.py from /repo — do not edit\n', overlay.get('crate_attrs', ''),
            '#![allow(unused_imports, dead_code, unused_variables, unused_mut, unused_parens)]\n',
            'use vstd::prelude::*;\n', overlay.get('uses', ''), '\nverus! {\n', overlay.get('prelude', ''), '\n']
     meta = []
